@@ -50,21 +50,21 @@ def _impl(c):
         if c['via'] == 'shape':
             kw = {} if c.get('n_cycles') is None else {'n_cycles': c['n_cycles']}
             if c.get('n_cycles') is not None:      # another filter length for the same signal first: no state may leak into the next call
-                implutil.quiet(compute_shape_features, sig, c['fs'], tuple(c['f_range']), center_extrema=c['center'], find_extrema_kwargs=fek, n_cycles=3)
-            sf = lambda a: implutil.quiet(compute_shape_features, a, c['fs'], tuple(c['f_range']), center_extrema=c['center'], find_extrema_kwargs=fek, **kw)
+                implutil.quiet(compute_shape_features, sig, c['fs'], implutil.frange(c), center_extrema=c['center'], find_extrema_kwargs=fek, n_cycles=3)
+            sf = lambda a: implutil.quiet(compute_shape_features, a, c['fs'], implutil.frange(c), center_extrema=c['center'], find_extrema_kwargs=fek, **kw)
             if isinstance(sig, np.ndarray) and sig.flags.writeable and len(sig) % 3 == 1:
                 df = implutil.reuse_buffer(sf, sig)
             else:
                 df = implutil.twice(lambda: sf(sig), [sig, fek], 'compute_shape_features')
         elif c['via'] == 'object':
             # through a Bycycle object with a history (other settings and a first fit on the same array, then rebound and refitted)
-            df = implutil.object_route(np.asarray(sig), c['fs'], tuple(c['f_range']), c['center'], 'cycles', None, None, fek, True)
+            df = implutil.object_route(np.asarray(sig), c['fs'], implutil.frange(c), c['center'], 'cycles', None, None, fek, True)
         else:
-            cf = lambda a: implutil.quiet(compute_features, a, c['fs'], tuple(c['f_range']), center_extrema=c['center'], find_extrema_kwargs=fek,
+            cf = lambda a: implutil.quiet(compute_features, a, c['fs'], implutil.frange(c), center_extrema=c['center'], find_extrema_kwargs=fek,
                                           threshold_kwargs={}, return_samples=True)
             # one case in three: the array is a buffer that held other samples when it was analysed a moment ago
             df = implutil.reuse_buffer(cf, sig) if (isinstance(sig, np.ndarray) and sig.flags.writeable and len(sig) % 3 == 0) else cf(sig)
-            df2 = implutil.quiet(compute_features, sig, c['fs'], tuple(c['f_range']), center_extrema=c['center'], find_extrema_kwargs=fek,
+            df2 = implutil.quiet(compute_features, sig, c['fs'], implutil.frange(c), center_extrema=c['center'], find_extrema_kwargs=fek,
                                  threshold_kwargs={}, return_samples=False)
             for col in df2.columns:      # dropping the sample columns leaves every other column unchanged
                 if not df2[col].equals(df[col]):
@@ -126,8 +126,8 @@ def evaluate(ctx, cases):
         used = x if c['center'] == 'peak' else -x
         try:
             nc = c.get('n_cycles') or 3
-            amp_used = _stub_amp(len(x)) if c['stub'] else kernels.band_amp(used, c['fs'], tuple(c['f_range']), n_cycles=nc)
-            amp_x = _stub_amp(len(x)) if c['stub'] else kernels.band_amp(x, c['fs'], tuple(c['f_range']), n_cycles=nc)
+            amp_used = _stub_amp(len(x)) if c['stub'] else kernels.band_amp(used, c['fs'], implutil.frange(c), n_cycles=nc)
+            amp_x = _stub_amp(len(x)) if c['stub'] else kernels.band_amp(x, c['fs'], implutil.frange(c), n_cycles=nc)
         except Exception as e:
             pre.append(dict(err='kernel: ' + type(e).__name__)); continue
         rows = implutil.sample_rows(df, c['center'])
